@@ -6,7 +6,8 @@ Functions put under a solver-discharged contract here (real bodies, symbolic exe
     the entry names are read from that handle only after the acceptance; on any failure no container is left open.
   * zip_context.py::ZipContext.read_bytes / open_stream / read_xml_root / read_text / close (every public method that touches the
     handle; found from the real class body, not listed by name) -- under INV(self): every member access goes to the accepted
-    handle (call-pre of the access), INV is preserved (close: handle closed, never re-opened unvalidated).
+    handle (call-pre of the access), INV is preserved (the handle is never replaced by an unvalidated container; any method
+    may close it).
   * zip_utils.py::read_zip_text / read_zip_xml_root -- requires: the container handed in was accepted and is open.
   * encryption.py::is_odf_encrypted                -- the manifest is read only from a container accepted under the configured
     limits, no container is left open on any exit (normal / exceptional).
@@ -263,6 +264,7 @@ def _context_contracts(cls):
         raises=[Raises("Exception", sub=True, label="any failure (zip-bomb error included): no container left open",
                        when=lambda c: z3.BoolVal(not c.st.ghost.get("open_zips")))],
         modifies=("self", "file_like"),
+        inline=True,
         note="class invariant INV(self) established; entry names read only after the acceptance (call-pre of the access)",
     ))
     if not attrs:
@@ -271,20 +273,22 @@ def _context_contracts(cls):
         others = [a.arg for a in f.args.args[1:]]
         if f.args.vararg or f.args.kwarg or f.args.kwonlyargs or f.args.posonlyargs:
             continue
-        closes = f.name == "close"
-
-        def inv_kept(c, closes=closes):
-            hs = handle_of(c.st, c.args["self"])
-            given = c.st.ghost.get("c11!given", ())
-            if len(hs) != len(attrs):
-                return z3.BoolVal(False)
+        def inv_kept(c):
+            """INV after the method: every handle attribute still holds a container the guard ACCEPTED under the configured limits
+            (the one given, or one re-opened through the guard) -- open or closed by this very method (any method may be the one
+            that closes: `close`, `__exit__`; use after close is a caller-protocol matter, a closed container reads nothing) -- or
+            None (handle dropped).  An unvalidated replacement refutes it."""
+            C = _c11()
+            d = c.st.obj(c.args["self"].ref).data or {}
             conj = []
-            for (_a, v) in hs:
-                same = any(z3.eq(v.t, g) for g in given)
-                if closes:
-                    conj.append(z3.BoolVal(same and not is_open(c.st, v.t)))
+            for a in attrs:
+                v = d.get(a)
+                if isinstance(v, VExt) and v.sort == "ZipFile":
+                    conj.append(z3.Not(C.spec_reject(v.t, configured_limits(c.ex, c.st))))
+                elif v is NONE or type(v).__name__ == "VNoneT":
+                    continue
                 else:
-                    conj.append(accepted_open(c.ex, c.st, v.t))
+                    return z3.BoolVal(False)
             return z3.And(conj) if conj else z3.BoolVal(True)
 
         fields = {a: p_accepted_zip() for a in attrs}
@@ -295,9 +299,10 @@ def _context_contracts(cls):
             params=[("self", p_obj("ZipContext", fields))] + [
                 (a.arg, p_str() if a.annotation is not None and ast.unparse(a.annotation) == "str"
                  else Maker(lambda ex, st, name: VUnk(name), desc="any")) for a in f.args.args[1:]],
-            ensures=[("handle-closed-not-replaced" if closes else "class-invariant-kept", inv_kept)],
+            ensures=[("class-invariant-kept", inv_kept)],
             raises=[Raises("Exception", sub=True, label="any failure of the member access: class invariant kept", when=inv_kept)],
             note="under the class invariant established by __init__: every member access goes to the accepted open handle",
+            inline=True,      # the contract speaks about ghost state (which containers are open): callers inside the pack run the body
         ))
     return out
 
